@@ -31,7 +31,10 @@ EXPECTED_REGIMES = ["day covered exactly half", "day covered just over half", "2
 STEP = {"15": pd.Timedelta(minutes=15), "30": pd.Timedelta(minutes=30), "60": pd.Timedelta(hours=1)}
 START = {"US/Pacific": "2021-03-13", "UTC": "2021-06-01", "Australia/Sydney": "2021-04-03", "Europe/London": "2021-10-30"}
 CALENDARS = {"30-31-28": [30, 31, 28], "24-30-36": [24, 30, 36, 30], "60-61": [60, 61], "30-71": [30, 71, 30], "25-35-35": [25, 35, 35], "70-25": [70, 25, 30],
-             "fall-35": [30, 35, 30]}  # US/Pacific from 2021-09-05: the 35-day period spans the fall-back (35 days + 1 hour elapsed)
+             "fall-35": [30, 35, 30],  # US/Pacific from 2021-09-05: the 35-day period spans the fall-back (35 days + 1 hour elapsed)
+             "med35": [35, 30, 35, 40, 35, 30],  # irregular calendar whose median period is exactly 35 days: monthly limits apply, the 40-day period is off-cycle
+             "tail-nan": [30, 31, 30, 31, 30]}  # the last two reads have a date but no amount yet: the billed periods before them are unaffected
+TAIL_NAN = {"tail-nan": 2}
 CAL_START = {"fall-35": "2021-09-05"}
 
 
@@ -45,7 +48,7 @@ def cases(tier, seed):
     zones = ["US/Pacific", "UTC"] + (["Australia/Sydney", "Europe/London"] if tier == "thorough" else [])
     out = [f"{k}|{z}|{s}" for k in ("fn", "class") for z in zones for s in ("15", "30", "60")] + [f"daily|{z}|D" for z in zones[:2]]
     cals = ["30-31-28", "24-30-36", "60-61", "30-71"] + (["25-35-35", "70-25"] if tier == "thorough" else [])
-    out += [f"billing|UTC|{c}" for c in cals] + ["billing|US/Pacific|30-71", "billing|US/Pacific|fall-35"]
+    out += [f"billing|UTC|{c}" for c in cals] + ["billing|US/Pacific|30-71", "billing|US/Pacific|fall-35", "billing|UTC|med35", "billing|US/Pacific|tail-nan"]
     if tier == "thorough":
         out.append("fp|half|x" + ("|x" if False else ""))
     return out
@@ -110,6 +113,8 @@ def build_billing(zone, cal, sym, env=None):
     midx = billing_index(zone, cal)
     k = len(midx) - 1
     vals = [real(f"b{i}") if sym else float(env.get(f"b{i}", 100.0)) for i in range(k)] + [float("nan")]
+    for i in range(k - TAIL_NAN.get(cal, 0), k):
+        vals[i] = float("nan")
     meter = pd.Series(SymArray(vals) if sym else np.array(vals, dtype=float), index=midx, name="observed")
     tidx = pd.date_range(midx[0], midx[-1], freq="D")
     temp = pd.Series(np.full(len(tidx), 55.0), index=tidx, name="temperature")
@@ -158,7 +163,10 @@ def check_billing(d, midx, env, cal):
         if i == len(lens) - 1:
             continue  # final period: open-ended by convention
         off = L < 25 or L > hi
-        if off:
+        if i >= len(lens) - TAIL_NAN.get(cal, 0):
+            if np.isfinite(seg).any():
+                pr.append(f"period starting {a.date()} has no billed amount but carries usage {np.nansum(seg)}")
+        elif off:
             if np.isfinite(seg).any():
                 pr.append(f"off-cycle period of {L} days starting {a.date()} not dropped: {np.nansum(seg)}")
         else:
@@ -292,7 +300,10 @@ def run_billing(case, zone, cal):
             seg = [v for t, v in oc.items() if a <= t < b]
             off = L < 25 or L > hi
             spans_dst = a.utcoffset() != b.utcoffset()
-            if off:
+            if i >= len(lens) - TAIL_NAN.get(cal, 0):
+                case.prove(p, all(is_nan(v) for v in seg), "a period whose read has no amount carries no usage", replay=rp)
+                case.regime("trailing reads without an amount")
+            elif off:
                 case.prove(p, all(is_nan(v) for v in seg), "off-cycle period (<25, >35 monthly, >70 bi-monthly) is dropped", replay=rp,
                            exclude=[("C08-offcycle-dst", z3.BoolVal(spans_dst and L in (24, 36, 71)))])
                 case.regime("off-cycle period dropped")
